@@ -149,9 +149,19 @@ PLANS["C09"] = {
     "rule": "as C08 with 3 or 4 ordered groups; every interpolant is checked as a Craig interpolant of prefix versus rest and "
             "every consecutive pair for the path property",
 }
+def c19_remap(v, fam):
+    """a violation in the variant with rejected commands that the clean variant does not show is a C19 matter"""
+    if v.get("p") == "C19":
+        return "C19"
+    if v.get("kind") == "reject" and v.get("afterReject") and v.get("p") in ("C01", "C02", "C03", "C04", "C06", "C07", "C21"):
+        same_in_clean = any(w.get("kind") == "main" and w.get("p") == v.get("p") and
+                            json.dumps(w.get("why"), sort_keys=True) == json.dumps(v.get("why"), sort_keys=True) for w in fam)
+        if not same_in_clean:
+            return "C19"
+    return v.get("p")
 PLANS["C19"] = {
     "jobs": lambda seed, tier: spread(seed, "C19", N(tier, 130, 2600), ALL_LOGICS, "reject"),
-    "remap": lambda v: "C19" if (v.get("kind") == "reject" and v.get("afterReject") and v.get("p") in ("C01", "C02", "C03", "C04", "C06", "C21", "C19")) else v.get("p"),
+    "remap": c19_remap,
     "rule": "a valid script and the same script with 1-3 rejected commands inserted at random positions (unknown symbols, "
             "ill-sorted terms, names inside rejected terms, illegal pop, bad definitions, wrong mode); both are replayed against "
             "the specification, in which a rejected command changes nothing; responses are also compared command by command",
